@@ -18,6 +18,7 @@ META = {
             'other segments) are unconstrained. The Hercules graphics page is taken at segment B800 as the emulator maps it. '
             'EGA planes: read plane via OUT &H3CF, write mask via OUT &H3C5; planes that do not exist in a mode are unconstrained.',
 }
+META['text'] += ' The Tandy 1000 and PCjr dialect presets (syntax=tandy/pcjr) are driven as configurations with Tandy-format BLOAD files; refused PEEK/POKE/BSAVE/BLOAD statements of the fragment are rejected.'
 
 # adapter -> SCREEN numbers (0 is driven at WIDTH 80 and 40)
 ADAPTER_MODES = {
